@@ -57,6 +57,8 @@ type Exec struct {
 	PoolReuses, PoolFresh int
 	// Preempts counts thread switches away from a still-enabled thread.
 	Outcome string // set by the harness: canonical description of what this execution observed
+	// Diverged is non-empty when the execution could not follow the prefix it was asked to replay.
+	Diverged string
 }
 
 // Failure is a property failure observed during an execution.
@@ -95,7 +97,11 @@ func (x *Exec) choose(kind, n int, costly bool, what string) int {
 	if i < len(x.prefix) {
 		c = x.prefix[i]
 		if c < 0 || c >= n {
-			panic(fmt.Sprintf("vsync: replay divergence at point %d (%s): choice %d out of range %d", i, what, c, n))
+			// see runExec: state outside the harness' control changed the shape of the execution
+			if x.Diverged == "" {
+				x.Diverged = fmt.Sprintf("replay divergence at point %d (%s): recorded choice %d, only %d alternatives now", i, what, c, n)
+			}
+			c = 0
 		}
 	}
 	x.choices = append(x.choices, c)
@@ -270,6 +276,10 @@ type Stats struct {
 	WithReuse   int64 // executions in which a pooled object was actually recycled
 	Aborted     int64
 	Outcomes    map[string]int64
+	// Diverged counts executions that did not reproduce the choice points of the prefix they replay (state kept
+	// by the code under test across executions, outside the harness' control); nothing below them is explored.
+	Diverged        int64
+	DivergedExample string
 }
 
 // SetOutcome lets the harness describe what the running execution observed (for outcome counting).
@@ -319,7 +329,11 @@ func runExec(prefix []int, mk func() Harness, trace bool, maxSteps int) *Exec {
 	}
 	cur = nil
 	if len(x.choices) < len(prefix) {
-		panic(fmt.Sprintf("vsync: replay divergence: execution ended after %d choice points, prefix has %d", len(x.choices), len(prefix)))
+		// The prefix was recorded in an earlier execution of the SAME harness: the code under test kept state across
+		// executions that the harness cannot reset (for example a package-level variable written without any
+		// synchronisation operation the shim could see). Exploration below this point would be meaningless; the
+		// explorer counts it, does not descend, and the check reports the exploration as incomplete.
+		x.Diverged = fmt.Sprintf("replay divergence: execution ended after %d choice points, prefix has %d", len(x.choices), len(prefix))
 	}
 	return x
 }
@@ -362,6 +376,13 @@ func (e *explorer) explore(prefix []int, depth int, mine bool) {
 		return
 	}
 	x := runExec(prefix, e.mk, false, e.cfg.MaxSteps)
+	if x.Diverged != "" {
+		e.st.Diverged++
+		if e.st.DivergedExample == "" {
+			e.st.DivergedExample = fmt.Sprintf("prefix %v: %s", prefix, x.Diverged)
+		}
+		return
+	}
 	if mine {
 		e.st.Execs++
 		e.st.Points += int64(len(x.points))
